@@ -161,9 +161,11 @@ Qed.
 Lemma follow_found_mono : forall w w' f l f1 o1, world_le w w' ->
   follow w f l = Found f1 o1 -> follow w' f l = Found f1 o1.
 Proof.
-  destruct l; simpl; intros; auto.
+  intros w w' f l f1 o1 H. unfold follow. generalize FUEL; intro K.
+  destruct l as [o'|q|f' q]; intro Hf.
+  - exact Hf.
   - eapply walk_found_mono; eauto.
-  - destruct (file_exists w f0) eqn:Ex; try discriminate.
+  - destruct (file_exists w f') eqn:Ex; try discriminate.
     rewrite (world_le_exists _ _ _ H Ex). eapply walk_found_mono; eauto.
 Qed.
 
@@ -175,7 +177,7 @@ Proof.
   destruct p as [|n rest]; auto.
   destruct (obj_at w f o) as [[a ls|d]|]; try discriminate.
   destruct (assoc n ls) as [l|]; try discriminate. destruct l; eauto.
-  destruct (file_exists w f0); try discriminate. eauto.
+  all: destruct (file_exists w f0); try discriminate; eauto.
 Qed.
 
 Lemma walk_found_fuel : forall k j w x f o p f1 o1,
@@ -185,7 +187,7 @@ Proof.
   destruct p as [|n rest]; auto.
   destruct (obj_at w f o) as [[a ls|d]|]; try discriminate.
   destruct (assoc n ls) as [l|]; try discriminate. destruct l; eauto.
-  destruct (file_exists w f0); try discriminate. eauto.
+  all: destruct (file_exists w f0); try discriminate; eauto.
 Qed.
 
 (** the unbounded reading of path resolution: some budget suffices *)
@@ -195,7 +197,7 @@ Definition resolves (w : world) (f : fid) (p : path) (f1 : fid) (o1 : nat) : Pro
   resolves_from w f O p f1 o1.
 
 Lemma resolve_resolves : forall w f p f1 o1, resolve w f p = Found f1 o1 -> resolves w f p f1 o1.
-Proof. intros. exists FUEL. exact H. Qed.
+Proof. intros w f p f1 o1 H. exists FUEL. exact H. Qed.
 
 Lemma resolves_mono : forall w w' f o p f1 o1, world_le w w' ->
   resolves_from w f o p f1 o1 -> resolves_from w' f o p f1 o1.
@@ -205,16 +207,17 @@ Lemma walk_app : forall k1 w x f o p f1 o1, walk k1 w x f o p = Found f1 o1 ->
   forall k2 x2 r f2 o2, walk k2 w x2 f1 o1 r = Found f2 o2 ->
   walk (k1 + k2) w x f o (p ++ r) = Found f2 o2.
 Proof.
-  induction k1; simpl; intros w x f o p f1 o1 H1 k2 x2 r f2 o2 H2; try discriminate.
+  induction k1; intros w x f o p f1 o1 H1 k2 x2 r f2 o2 H2; [simpl in H1; discriminate|].
   destruct p as [|n rest].
-  - inversion H1; subst. simpl.
-    replace (S (k1 + k2)) with (k2 + S k1)%nat by lia.
+  - simpl in H1. inversion H1; subst.
+    change ([] ++ r) with r. replace (S k1 + k2)%nat with (k2 + S k1)%nat by lia.
     apply walk_found_fuel. eapply walk_found_flag; eauto.
-  - simpl. destruct (obj_at w f o) as [[a ls|d]|]; try discriminate.
+  - simpl in H1. change (S k1 + k2)%nat with (S (k1 + k2)). simpl.
+    destruct (obj_at w f o) as [[a ls|d]|]; try discriminate.
     destruct (assoc n ls) as [l|]; try discriminate. destruct l.
     + eapply IHk1; eauto.
-    + rewrite <- app_assoc. eapply IHk1; eauto.
-    + destruct (file_exists w f0); try discriminate. rewrite <- app_assoc. eapply IHk1; eauto.
+    + rewrite app_assoc. eapply IHk1; eauto.
+    + destruct (file_exists w f0); try discriminate. rewrite app_assoc. eapply IHk1; eauto.
 Qed.
 
 Lemma resolves_step : forall w f o n l rest f1 o1 f2 o2,
@@ -224,10 +227,174 @@ Proof.
   intros w f o n l rest f1 o1 f2 o2 Hl Hf [k Hk].
   unfold lookup_link in Hl.
   destruct (obj_at w f o) as [[a ls|d]|] eqn:E; try discriminate.
-  destruct l; simpl in Hf.
-  - inversion Hf; subst. exists (S k). simpl. rewrite E, Hl. auto.
-  - exists (S (FUEL + k)). simpl. rewrite E, Hl. eapply walk_app; eauto.
-  - destruct (file_exists w f0) eqn:Ex; try discriminate.
-    exists (S (FUEL + k)). simpl. rewrite E, Hl, Ex.
+  revert Hf. unfold follow. generalize FUEL; intro K.
+  destruct l as [o'|q|f' q]; intro Hf.
+  - inversion Hf; subst. exists (S k). simpl. rewrite E, Hl. exact Hk.
+  - exists (S (K + k)). simpl. rewrite E, Hl. eapply walk_app; eauto.
+  - destruct (file_exists w f') eqn:Ex; try discriminate.
+    exists (S (K + k)). simpl. rewrite E, Hl, Ex.
     eapply walk_app; eauto.
 Qed.
+
+(* ------------------------------------------------------------------ the primitives only add links *)
+Lemma store_le_refl : forall s, store_le s s.
+Proof.
+  destruct s; simpl; auto. eexists; split; eauto. intros. eexists; split; eauto. apply obj_le_refl.
+Qed.
+
+Lemma world_le_set : forall w f st st',
+  get_store w f = Some st -> store_le (Some st) (Some st') -> world_le w (set_store w f (Some st')).
+Proof.
+  intros w f st st' E H g. destruct (fid_dec f g) as [<-|N].
+  - rewrite get_set_same, E. exact H.
+  - rewrite get_set_other by auto. apply store_le_refl.
+Qed.
+
+Lemma world_le_create : forall w f st', get_store w f = None -> world_le w (set_store w f (Some st')).
+Proof.
+  intros w f st' E g. destruct (fid_dec f g) as [<-|N].
+  - rewrite E. simpl. auto.
+  - rewrite get_set_other by auto. apply store_le_refl.
+Qed.
+
+Lemma store_le_app : forall st ext, store_le (Some st) (Some (st ++ ext)).
+Proof.
+  intros. eexists; split; eauto. intros o x Hx. exists x; split; [|apply obj_le_refl].
+  rewrite nth_error_app1; auto. apply nth_error_Some. congruence.
+Qed.
+
+Lemma store_le_upd : forall st o x y, nth_error st o = Some x -> obj_le x y ->
+  store_le (Some st) (Some (upd o y st)).
+Proof.
+  intros st o x y Hx Hle. eexists; split; eauto. intros o' x' Hx'.
+  destruct (Nat.eq_dec o o') as [<-|N].
+  - rewrite nth_error_upd_same by (apply nth_error_Some; congruence).
+    eexists; split; eauto. congruence.
+  - rewrite nth_error_upd_other by auto. eexists; split; eauto. apply obj_le_refl.
+Qed.
+
+Lemma store_le_trans : forall a b c, store_le a b -> store_le b c -> store_le a c.
+Proof.
+  intros a b c H1 H2. unfold store_le in *. destruct a; auto.
+  destruct H1 as (sb & -> & Hb). destruct H2 as (sc & -> & Hc).
+  eexists; split; eauto. intros o x Hx.
+  destruct (Hb _ _ Hx) as (y & Hy & L1). destruct (Hc _ _ Hy) as (z & Hz & L2).
+  exists z; split; auto. eapply obj_le_trans; eauto.
+Qed.
+
+Lemma alloc_le : forall w f x w1 g, alloc w f x = (w1, g) -> world_le w w1.
+Proof.
+  unfold alloc; intros w f x w1 g H. destruct (get_store w f) eqn:E; inversion H; subst.
+  - eapply world_le_set; eauto. apply store_le_app.
+  - apply world_le_refl.
+Qed.
+
+Lemma alloc_obj : forall w f x w1 g st, get_store w f = Some st -> alloc w f x = (w1, g) ->
+  g = List.length st /\ get_store w1 f = Some (st ++ [x]) /\ obj_at w1 f g = Some x.
+Proof.
+  unfold alloc; intros w f x w1 g st E H. rewrite E in H. inversion H; subst.
+  split; auto. unfold obj_at. rewrite get_set_same. split; auto.
+  rewrite nth_error_app2 by lia. now rewrite Nat.sub_diag.
+Qed.
+
+Lemma set_obj_le : forall w f o x y, obj_at w f o = Some x -> obj_le x y -> world_le w (set_obj w f o y).
+Proof.
+  unfold obj_at, set_obj; intros w f o x y Hx Hle. destruct (get_store w f) eqn:E; try discriminate.
+  eapply world_le_set; eauto. eapply store_le_upd; eauto.
+Qed.
+
+Lemma set_obj_at : forall w f o x y, obj_at w f o = Some x -> obj_at (set_obj w f o y) f o = Some y.
+Proof.
+  unfold obj_at, set_obj; intros w f o x y Hx. destruct (get_store w f) eqn:E; try discriminate.
+  rewrite get_set_same. apply nth_error_upd_same. apply nth_error_Some. congruence.
+Qed.
+
+Lemma links_le_ins : forall n l ls, assoc n ls = None -> links_le ls (ins_sorted n l ls).
+Proof.
+  intros n l ls Hn m l' Hm. destruct (S.eqb n m) eqn:E.
+  - apply S.eqb_eq in E; subst. congruence.
+  - rewrite assoc_ins_other; auto. intro; subst. rewrite eqb_refl' in E. discriminate.
+Qed.
+
+Lemma bind_le : forall w f g n l w', bind w f g n l = Some w' -> world_le w w'.
+Proof.
+  unfold bind; intros w f g n l w' H.
+  destruct (obj_at w f g) as [[a ls|d]|] eqn:E; try discriminate.
+  destruct (assoc n ls) eqn:En; try discriminate. inversion H; subst.
+  eapply set_obj_le; eauto. simpl. split; auto. now apply links_le_ins.
+Qed.
+
+Lemma bind_lookup : forall w f g n l w', bind w f g n l = Some w' -> lookup_link w' f g n = Some l.
+Proof.
+  unfold bind; intros w f g n l w' H.
+  destruct (obj_at w f g) as [[a ls|d]|] eqn:E; try discriminate.
+  destruct (assoc n ls) eqn:En; try discriminate. inversion H; subst.
+  unfold lookup_link. erewrite set_obj_at by eauto. apply assoc_ins_same.
+Qed.
+
+Lemma ensure_gen_le : forall fol comps w xs xe f o w1 fl f1 g,
+  ensure_gen fol w xs xe f o comps = Some (w1, fl, f1, g) -> world_le w w1.
+Proof.
+  induction comps as [|c rest IH]; simpl; intros w xs xe f o w1 fl f1 g H.
+  - inversion H; subst. apply world_le_refl.
+  - destruct (obj_at w f o) as [[a ls|d]|] eqn:E; try discriminate.
+    destruct (assoc c ls) as [l|] eqn:Ec.
+    + destruct (fol w f l); try discriminate. eauto.
+    + destruct (alloc w f (Group [] [])) as [wa ga] eqn:Ea.
+      eapply world_le_trans; [eapply alloc_le; eauto|].
+      eapply world_le_trans; [|eapply IH; eauto].
+      destruct (world_le_obj _ _ _ _ _ (alloc_le _ _ _ _ _ Ea) E) as (y & Ey & Ly).
+      destruct y as [a' ls'|]; simpl in Ly; try tauto. destruct Ly as [<- Ly].
+      assert (ls' = ls) as ->.
+      { unfold alloc, obj_at in *. destruct (get_store w f) eqn:Es; try discriminate.
+        inversion Ea; subst. rewrite get_set_same in Ey.
+        rewrite nth_error_app1 in Ey by (apply nth_error_Some; congruence). congruence. }
+      eapply set_obj_le; eauto. simpl; split; auto. now apply links_le_ins.
+Qed.
+
+Lemma ensure_le : forall comps w f o w1 fl f1 g,
+  ensure w f o comps = Some (w1, fl, f1, g) -> world_le w w1.
+Proof. unfold ensure; intros. eapply ensure_gen_le; eauto. Qed.
+
+Lemma add_link_le : forall w f p l lf e1 e2, world_le w (snd (add_link w f p l lf e1 e2)).
+Proof.
+  unfold add_link; intros. destruct (split_last p) as [[par n]|]; simpl; [|apply world_le_refl].
+  destruct (ensure w f 0 par) as [[[[w1 [xs xe]] f1] g]|] eqn:E; simpl; [|apply world_le_refl].
+  pose proof (ensure_le _ _ _ _ _ _ _ _ E) as L1.
+  destruct l.
+  - destruct (fid_eqb f1 lf); simpl; auto.
+    destruct (bind w1 f1 g n (Hard o)) eqn:B; simpl; [|apply world_le_refl].
+    eapply world_le_trans; eauto. eapply bind_le; eauto.
+  - destruct (bind w1 f1 g n (Soft p0)) eqn:B; simpl; [|apply world_le_refl].
+    eapply world_le_trans; eauto. eapply bind_le; eauto.
+  - destruct xe; simpl; [apply world_le_refl|].
+    destruct (bind w1 f1 g n (Ext f0 p0)) eqn:B; simpl; [|apply world_le_refl].
+    eapply world_le_trans; eauto. eapply bind_le; eauto.
+Qed.
+
+Lemma h5copy_le : forall w sf so df dg dp, world_le w (snd (h5copy w sf so df dg dp)).
+Proof.
+  unfold h5copy; intros. destruct (split_last dp) as [[par n]|]; simpl; [|apply world_le_refl].
+  destruct (get_store w sf) as [src0|]; simpl; [|apply world_le_refl].
+  destruct (ensure w df dg par) as [[[[w1 [xs xe]] f1] g]|] eqn:E; simpl; [|apply world_le_refl].
+  pose proof (ensure_le _ _ _ _ _ _ _ _ E) as L1.
+  destruct (xs || negb (fid_eqb f1 df)); simpl; [apply world_le_refl|].
+  destruct (get_store w1 f1) as [st1|] eqn:Es; simpl; [|apply world_le_refl].
+  destruct (nth_error st1 g) as [[a ls|d]|] eqn:Eg; simpl; try apply world_le_refl.
+  destruct (assoc n ls) eqn:En; simpl; [apply world_le_refl|].
+  eapply world_le_trans; eauto. eapply world_le_set; eauto.
+  eapply store_le_trans; [|apply store_le_app].
+  eapply store_le_upd; eauto. simpl; split; auto. now apply links_le_ins.
+Qed.
+
+Lemma copy_children_gen_le : forall fol cpy, (forall w a b c d e, world_le w (snd (cpy w a b c d e))) ->
+  forall names w sf so df, world_le w (snd (copy_children_gen fol cpy w sf so names df)).
+Proof.
+  intros fol cpy Hc. induction names as [|[n l] rest IH]; simpl; intros; [apply world_le_refl|].
+  destruct (fol w sf l); simpl; try apply world_le_refl.
+  specialize (Hc w f o df 0%nat [n]). destruct (cpy w f o df 0%nat [n]) as [e w1]; simpl in *.
+  destruct e; simpl; auto. eapply world_le_trans; eauto.
+Qed.
+
+Lemma copy_children_le : forall names w sf so df, world_le w (snd (copy_children w sf so names df)).
+Proof. intros. apply copy_children_gen_le. intros. apply h5copy_le. Qed.
